@@ -126,6 +126,17 @@ def run(ctx, model_ok=True, proofs_broken=False):
             continue
         sc = ["urlenc %s %s" % (t[1], chunk_str(p)) for p in chunkings(s, rng)] + [l]
         scripts.append(sc); meta.append((t[1], s))
+    # invalid escapes that are decoded all the same (HTP_URL_DECODE_PROCESS_INVALID): "%XY" with X, Y not both hex digits is x2c's
+    # arithmetic digit(X) * 16 + digit(Y) mod 256 on arbitrary bytes - judged against that formula below (the model's x2c table is
+    # regenerated from the source, so the correspondence alone cannot see a change to x2c; theorem C15_x2c_table pins the table)
+    XY = b"0189aAfFgGzZ@[`{/:!~*-.\x7f\x80\xff\x01"
+    for X in XY:
+        for Y in XY + b"+%":
+            if bytes([X]) in b"uU":
+                continue
+            sline = b"a=%" + bytes([X, Y])
+            sc = ["urlenc ctx=1,inv=2 %s" % hx(sline)]
+            scripts.append(sc); meta.append(("ctx=1,inv=2/x2c", sline))
     corpus = lib.load_corpus("C15")
     if model_ok:
         nlines, disagreements, c_outs, san = lib.corr_scripts(ctx, corpus + scripts, "urlenc", batch=60000)
@@ -155,6 +166,17 @@ def run(ctx, model_ok=True, proofs_broken=False):
             if not outs[0].startswith(want + " flags="):
                 found.setdefault("reference", []).append({"script": [sc[0]], "impl": outs[0], "reference": want,
                                                           "what": "differs from the reference split/decoding"})
+        if c == "ctx=1,inv=2/x2c":
+            def dig(b):
+                return ((((b & 0xdf) - 0x41) + 10) if b >= 0x41 else (b - 0x30)) & 0xff
+            X, Y = s[3], s[4]
+            hexd = b"0123456789abcdefABCDEF"
+            want_b = (dig(X) * 16 + dig(Y)) & 0xff
+            if want_b != 0:                      # a decoded NUL is subject to the NUL options: not judged here
+                want = fmt_pairs([(b"a", bytes([want_b]))])
+                if not outs[0].startswith(want + " flags="):
+                    found.setdefault("x2c-arithmetic", []).append({"script": [sc[0]], "impl": outs[0], "reference": want,
+                                                                   "what": "%%%02x%02x under PROCESS_INVALID should decode to %02x (x2c arithmetic)" % (X, Y, want_b)})
         if b"&" in s and b"=" in s:
             nontriv += 1
     for sig, items in found.items():
